@@ -759,6 +759,9 @@ class SymVC:
     def dict(self, items):
         return SDict([(lift(k), lift(v)) for k, v in items])
 
+    def set(self, items):
+        return SSet([lift(x) for x in items])
+
     def lift(self, x):
         return lift(x)
 
@@ -1044,6 +1047,9 @@ class NativeVC:
 
     def dict(self, items):
         return dict(items)
+
+    def set(self, items):
+        return set(items)
 
     def lift(self, x):
         return x
